@@ -138,7 +138,7 @@ PROPS["C10"] = P([("cycles", "fast", 6000, 0.6), ("cycles", "trace", 1000, 0.4)]
     "(a) unchanged in residual space; (b) equals u + P A_c^-1 R (f - A u) (extrapolated: 4/3 R_ex r - 1/3 r_c(inject u)); (c) "
     "bit-identical with and without NaN junk in the scratch vectors and after previous cycles, under the canonical schedule.",
     quick_runs=7000, quick_budget_s=100, thorough_budget_s=1500,
-    expect_probes=["mode_0", "mode_1", "mode_2", "history_compared", "cycle_V", "cycle_W", "cycle_F", "cycle_V_ex", "cycle_W_ex",
+    expect_probes=["mode_0", "mode_1", "mode_2", "mode_3", "mode_4", "entered_at_depth_1", "history_compared", "cycle_V", "cycle_W", "cycle_F", "cycle_V_ex", "cycle_W_ex",
                    "cycle_F_ex", "levels_3"])
 
 PROPS["C02"] = P([("ladder", "fast", 48, 1.0)],
@@ -193,7 +193,7 @@ PROPS["C18"] = P([("gridfiles", "asan", 1200, 0.8), ("gridfiles", "fast", 500, 0
     quick_runs=1700, quick_budget_s=120, thorough_budget_s=1500,
     expect_probes=["parameters_accepted", "parameters_rejected", "refinement_radius_outside_domain", "anisotropic",
                    "round_trip", "load_rejected", "load_accepted", "crash_points_enumerated", "levels_checked",
-                   "solver_loaded_grid", "nesting_checked"])
+                   "solver_loaded_grid", "nesting_checked", "explicit_grid_set_up", "explicit_grid_solved"])
 PROPS["C20"] = P([("options", "asan", 1200, 0.4), ("options", "fast", 1200, 0.35), ("cli", "asan", 3000, 0.25)],
     "(a) option vectors through every public setter: all problem triples incl. Culham-free set, grids down to the smallest, "
     "anisotropic factor with refinement radius anywhere (incl. the CLI default 0), disabled tolerances, zero smoothing steps, zero "
@@ -206,7 +206,8 @@ PROPS["C20"] = P([("options", "asan", 1200, 0.4), ("options", "fast", 1200, 0.35
     "poison pattern (the deterministic stand-in for MemorySanitizer, which is not usable here).",
     quick_runs=5400, quick_budget_s=130, thorough_budget_s=1800,
     expect_probes=["completed", "rejected", "both_tolerances_disabled", "zero_iterations", "zero_smoothing_steps", "level_cap_2",
-                   "take_without_caches", "poison_differential", "exit", "returned", "exception"])
+                   "take_without_caches", "poison_differential", "exit", "returned", "exception", "catalogue_supported",
+                   "catalogue_unsupported"])
 
 NOT_APPLICABLE = {
     "C16": "pure sequential function (A,b)->x: SparseLUSolver factorises in its constructor, solveInPlace is const; no schedule, clock, I/O, fault or history for a simulator to own (DESIGN.md 9.3)",
@@ -214,3 +215,6 @@ NOT_APPLICABLE = {
     "C19": "closed-form const functions of (r,theta); no state, no parallel region, no I/O (DESIGN.md 9.3)",
 }
 PENDING = {}
+
+PROPS["C20"]["valgrind_samples"] = 8
+PROPS["C13"]["valgrind_samples"] = 4
